@@ -129,13 +129,3 @@ Qed.
 Theorem double_put_shares :
   exists t c i, snd (ostep (orun o0 t) (EGet c)) = Some i /\ In i (oheld (orun o0 t)).
 Proof. exists [EGet None; EPut 0; EPut 0; EGet (Some 0)], (Some 0), 0. cbn. auto. Qed.
-
-(* every site of the repository: one Get, one Put, and the Put deferred - so each invocation gives back exactly
-   the buffer it holds, exactly once, when it is done with it (the discipline above) *)
-Definition balance_ok (b : string * nat * nat) : bool := Nat.eqb (snd (fst b)) 1 && Nat.eqb (snd b) 1.
-Lemma sites_balanced : forall b, In b pool_balance -> balance_ok b = true.
-Proof. assert (H : forallb balance_ok pool_balance = true) by (vm_compute; reflexivity). intros b Hb. rewrite forallb_forall in H. auto. Qed.
-Lemma sites_same : map (fun s => fst (fst (fst s))) pool_sites = map (fun b => fst (fst b)) pool_balance.
-Proof. vm_compute. reflexivity. Qed.
-Lemma no_pool_calls_elsewhere : pool_calls_elsewhere = ["internal/sync/pool.go|Get|Get"; "internal/sync/pool.go|Put|Put"]%string.
-Proof. vm_compute. reflexivity. Qed.
